@@ -100,8 +100,11 @@ class C20(Mode):
         self.commits += 1
         touched = set(n for (n, a) in rec.pending) | set(rec.created)
         for n in sorted(touched):
-            if n in rec.created or n in rec.locked:
+            if n in rec.created:
                 continue
+            # (an object locked for update is not exempt: what the session read from it BEFORE the lock has to be
+            # compared when the locking fetch returns the row - it raises, or the values were still the same - and
+            # after the lock nobody else can commit a change, so at commit every recorded read still has to hold)
             cur = self.store.get(n)
             if cur is None:
                 continue
